@@ -16,17 +16,35 @@ type's `parse`), an AS_PATH thereby with C13's `AsPath.hops`.
 makes: `.err` = `try_new` refused, `.ok r` = the record `PathSel.cmp` works on.
 The Rust reads cannot panic (`get` clones, `neighbor_path_selection` /
 `hop_count_path_selection` / `ClusterIds::len` are total).  The one `.panic`
-here is the model's own representation check: a typed `Attr` whose value octets
-are not an image of its type's `compose_value` has no Rust counterpart
-(`try_new_total` in Rc/Thm/C10.lean: unreachable from `from_update_pdu` and from
-every API-built map).  `cmp` reads lazily (LOCAL_PREF only for an iBGP route
-without a configured degree of preference ...); the record is filled eagerly -
-unobservable, the reads have no effect and no failure.
+here is the MODEL's own representation check, not a panic site of routecore: a
+typed `Attr` whose value octets are not an image of its type's `compose_value`
+has no Rust counterpart (`try_new_total` in Rc/Thm/C10.lean: the check never
+fires on a map `from_update_pdu` builds nor on a map built by API calls whose
+typed arguments are parse images, `OpOk`).  `cmp` reads lazily (LOCAL_PREF only
+for an iBGP route without a configured degree of preference ...); the record is
+filled eagerly - unobservable, the reads have no effect and no failure.
 
-Second half: the reference reading of the attribute section of an UPDATE,
-written from RFC 4271 4.3 / 5, RFC 4456 8 and RFC 7606 3.g independently of the
-map: first occurrence of each type code, length rules of the five fixed-shape
-attributes, the AS_PATH in the width of the session (C13's `toHopPath`).
+Which Rust values a typed `Attr` stands for: the value octets are what
+`compose_value` writes, so Rust values that compose alike are ONE model value.
+For the six attributes read here that identifies `Origin(OriginType::
+Unimplemented(n))`, n <= 2 (only the API builds it; `u8::from` = n) with
+`Origin(OriginType::from(n))`, and a `HopPath` that holds an AS_SEQUENCE as
+`Hop::Segment` with the path that holds its ASes as `Hop::Asn`s.  `try_new` /
+`cmp` read the ORIGIN through `u8::from` (fix F37; before it the derived order of
+the enum was read and the identification was wrong for `Unimplemented(0..=2)`),
+the path through `hop_count_path_selection` / `neighbor_path_selection`, which
+give both forms the same count and neighbour (fix F26): the identification is
+invisible to them.  It IS visible to `PaMap ==` (C17's subject, not used here).
+
+Second half: the DIRECT reading of the attribute section of an UPDATE
+(`wireRoute`): the same fields read off the list of received attributes without
+the map and without the stored representation - first occurrence of each type
+code, the length rule of each fixed-shape attribute, the AS_PATH in the width of
+the session (C13's `toHopPath`).  It is the refinement target of
+`route_of_update_spec` ("the detour through `PaMap` and the four-octet stored
+form changes nothing"), NOT an independent reading of the RFCs: its case split is
+routecore's, and where RFC 7606 prescribes something else it follows routecore
+(`Rfc7606Departure` below names the four places).
 
 Core Lean only (the driver links this file).
 -/
@@ -147,18 +165,28 @@ def routeOfPdu (four ap : Bool) (pdu : Bytes) (tb : Tb) : Option (Outcome PathSe
   | .err => none
   | .panic => some .panic
 
-/-! ### the reference: what the attribute section says, read by the RFCs
+/-! ### the direct reading of the wire list (refinement target, routecore's policy)
 
-RFC 7606 3.g: of several attributes with one type code all but the first are
-discarded.  RFC 4271 4.3 / 5.1: ORIGIN is one octet, MULTI_EXIT_DISC and
-LOCAL_PREF four; RFC 4456 8: ORIGINATOR_ID four octets, CLUSTER_LIST a sequence of
-four-octet cluster ids.  A mandatory attribute of another shape is there but
-unusable (the route is not eligible); an optional one is treated as absent.  The
-AS_PATH is read in the AS number width of the session (RFC 6793), an AS4_PATH is
-not consulted (routecore does not merge it: `get::<HopPath>()` is code 2 only). -/
+Of several attributes with one type code the first counts (as RFC 7606 3.g).
+ORIGIN is one octet, MULTI_EXIT_DISC / LOCAL_PREF / ORIGINATOR_ID four,
+CLUSTER_LIST a sequence of four-octet cluster ids (the lengths of RFC 4271 5 /
+RFC 4456 8).  A mandatory attribute of another shape is there but unusable (the
+route is not eligible); an optional one is treated as absent and the route stays
+eligible.  The AS_PATH is read in the AS number width of the session, an AS4_PATH
+is not consulted (routecore does not merge it: `get::<HopPath>()` is code 2 only).
+
+Where this is routecore's policy and NOT RFC 7606 (which would treat the route as
+withdrawn or discard the attribute) - nothing in model, theorems or oracle judges
+routecore against the RFC on these four points:
+* 7.1: an ORIGIN of one octet with an undefined value (> 2) is a value, ordered by number;
+* 7.2: an AS_PATH with a zero-length segment is accepted (an empty AS_SEQUENCE adds no
+  hop and names no neighbour, an empty AS_SET counts one);
+* 7.4 / 7.5 / 7.9 / 7.10: a MULTI_EXIT_DISC, LOCAL_PREF, ORIGINATOR_ID or CLUSTER_LIST of a
+  wrong length counts as absent and the route stays eligible;
+* 7.9 / 7.10: ORIGINATOR_ID and CLUSTER_LIST received over eBGP are used (steps f, f2). -/
 
 /-- the value of the first attribute with code `c` if it has exactly four octets -/
-def rfcU32 (c : Nat) (ws : List PaMap.Wire) : Option Nat :=
+def wireU32 (c : Nat) (ws : List PaMap.Wire) : Option Nat :=
   match PaMap.firstWire c ws with
   | some w =>
     match w.value with
@@ -166,7 +194,7 @@ def rfcU32 (c : Nat) (ws : List PaMap.Wire) : Option Nat :=
     | _ => none
   | none => none
 
-def rfcOriginSlot (ws : List PaMap.Wire) : PathSel.Slot Nat :=
+def wireOriginSlot (ws : List PaMap.Wire) : PathSel.Slot Nat :=
   match PaMap.firstWire 1 ws with
   | none => .absent
   | some w =>
@@ -176,7 +204,7 @@ def rfcOriginSlot (ws : List PaMap.Wire) : PathSel.Slot Nat :=
 
 /-- the first AS_PATH attribute, read in the width it was received in: C13's
 `toHopPath` (`AsPath::new(octets, four)?.to_hop_path()`) -/
-def rfcPathSlot (ws : List PaMap.Wire) : PathSel.Slot (List PathSel.Hop) :=
+def wirePathSlot (ws : List PaMap.Wire) : PathSel.Slot (List PathSel.Hop) :=
   match PaMap.firstWire 2 ws with
   | none => .absent
   | some w =>
@@ -185,16 +213,40 @@ def rfcPathSlot (ws : List PaMap.Wire) : PathSel.Slot (List PathSel.Hop) :=
     | _ => .bogus
 
 /-- number of cluster ids of the first CLUSTER_LIST (a whole number of them) -/
-def rfcClusterLen (ws : List PaMap.Wire) : Option Nat :=
+def wireClusterLen (ws : List PaMap.Wire) : Option Nat :=
   match PaMap.firstWire 10 ws with
   | some w => if w.value.length % 4 = 0 then some (w.value.length / 4) else none
   | none => none
 
-/-- the route record the attribute section of an UPDATE denotes -/
-def rfcRoute (ws : List PaMap.Wire) (tb : Tb) : PathSel.Route :=
-  { ibgp := tb.ibgp, dop := tb.dop, localPref := rfcU32 5 ws, path := rfcPathSlot ws,
-    origin := rfcOriginSlot ws, med := rfcU32 4 ws, localAsn := tb.localAsn,
-    originatorId := rfcU32 9 ws, bgpId := tb.bgpId, clusterLen := rfcClusterLen ws,
+/-- the route record read directly off the received attribute list (routecore's policy, see above) -/
+def wireRoute (ws : List PaMap.Wire) (tb : Tb) : PathSel.Route :=
+  { ibgp := tb.ibgp, dop := tb.dop, localPref := wireU32 5 ws, path := wirePathSlot ws,
+    origin := wireOriginSlot ws, med := wireU32 4 ws, localAsn := tb.localAsn,
+    originatorId := wireU32 9 ws, bgpId := tb.bgpId, clusterLen := wireClusterLen ws,
     peerV6 := tb.peerV6, peerAddr := tb.peerAddr, extra := 0 }
+
+/-! ### where the direct reading departs from RFC 7606 -/
+
+def segHasEmpty (four : Bool) (v : Bytes) : Bool :=
+  match AsPath.segments four v with
+  | .ok ss => ss.any fun s => s.asns.isEmpty
+  | _ => false
+
+/-- one of the four places (listed above) where RFC 7606 would have the route treated as withdrawn /
+the attribute discarded while `wireRoute` - and `routeOfPaMap`, by `route_of_update_spec` - goes on
+with routecore's reading.  (For a route learned over eBGP a malformed LOCAL_PREF is merely discarded
+by 7.5: not counted.) -/
+def Rfc7606Departure (ws : List PaMap.Wire) (tb : Tb) : Bool :=
+  (match PaMap.firstWire 1 ws with
+   | some w => match w.value with | [o] => decide (o.toNat > 2) | _ => false
+   | none => false) ||
+  (match PaMap.firstWire 2 ws with
+   | some w => segHasEmpty w.four w.value
+   | none => false) ||
+  (match PaMap.firstWire 4 ws with | some w => w.value.length != 4 | none => false) ||
+  (tb.ibgp && match PaMap.firstWire 5 ws with | some w => w.value.length != 4 | none => false) ||
+  (tb.ibgp && match PaMap.firstWire 9 ws with | some w => w.value.length != 4 | none => false) ||
+  (tb.ibgp && match PaMap.firstWire 10 ws with | some w => w.value.length % 4 != 0 | none => false) ||
+  (!tb.ibgp && ((PaMap.firstWire 9 ws).isSome || (PaMap.firstWire 10 ws).isSome))
 
 end Rc.PathSelGlue
